@@ -35,6 +35,13 @@ ApplyR(c, st, op) ==
     [] op.op = "sample" -> LET key == op.kind \o ":" \o op.id IN
                            [st EXCEPT !.fw = Put(st.fw, key, (IF Has(st.fw, key) THEN st.fw[key] ELSE 0) + 1)]
 
+(* Naming (all three constructors: go-metrics, Datadog by address, Datadog over a caller's client): a metric with id  *)
+(* ID arrives at the backend under exactly one name, EffPrefix \o ID, where the requested prefix gets a trailing dot   *)
+(* if it has none and the empty prefix selects the default "limiter.".  (TLA+ has no string functions: the prefixes   *)
+(* of the driver's vocabulary that lack the dot are listed.)                                                         *)
+Undotted == {"svc", "x", "lim"}
+EffPrefix(p) == IF p = "" THEN "limiter." ELSE IF p \in Undotted THEN p \o "." ELSE p
+
 ObsR(st) == [polls |-> st.polls, fw |-> st.fw, returned |-> TRUE]
 
 Init == l = 1 /\ ok = FALSE /\ cfg = [kind |-> "none"] /\ s = InitS
@@ -43,6 +50,13 @@ Step ==
   /\ l <= Len(Log) /\ l' = l + 1
   /\ LET e == Log[l] IN
      IF e.ev = "Reset" THEN cfg' = e.cfg /\ s' = InitS /\ ok' = TRUE
+     ELSE IF e.ev = "Naming"
+     THEN /\ UNCHANGED <<ok, cfg, s>>
+          /\ LET exp == [rtt |-> <<EffPrefix(e.prefix) \o "demo.rtt">>, limit |-> <<EffPrefix(e.prefix) \o "demo.limit">>] IN
+             (e.rtt # exp.rtt \/ e.limit # exp.limit) =>
+                PrintT(<<"REJECT", ToJson([trace |-> e.trace, line |-> l, why |-> "a metric did not reach the backend under the prefixed name (exactly once)",
+                                           expected |-> exp, logged |-> [rtt |-> e.rtt, limit |-> e.limit], op |-> [op |-> "naming", ctor |-> e.ctor, prefix |-> e.prefix]])>>)
+     ELSE IF e.ev = "NamingSkipped" THEN UNCHANGED <<ok, cfg, s>>
      ELSE IF e.ev = "StopRace"
      THEN \* Stop called while a poll is in progress (a gauge supplier has not returned yet): Stop terminates the poller,
           \* so it returns only once that poll is over, and no supplier is called after it has returned
